@@ -179,7 +179,22 @@ func c06Leak(text string) string {
 
 func TestC06(t *testing.T) {
 	run := ev.New("C06", "model_checking")
+	if rp, ok := axReplay("C06"); ok && (rp["family"] == "raw-ids" || rp["family"] == "uuid-spellings") {
+		// these two families are small and deterministic: the replay re-runs the family
+		if rp["family"] == "raw-ids" {
+			c06RawIDs(t, run, 2)
+		} else {
+			c06Spellings(t, run)
+		}
+		return
+	}
 	if os.Getenv("VERIF_REPLAY") == "" {
+		idDepth := 2
+		if ev.Thorough() {
+			idDepth = 3
+		}
+		c06RawIDs(t, run, idDepth)
+		c06Spellings(t, run)
 		// second family first (cheap): network A is the all-zero UUID - a value a contextualizer can
 		// return and that code may mistake for "no network"; the same invariants, depth 1 (thorough 2)
 		c06A = uuid.Nil
@@ -387,6 +402,8 @@ func c06Explore(t *testing.T, run *ev.Run, maxDepth int, final bool) {
 		"keto_uuid_mappings has no network column: ids are UUIDv5(network id, string), so the monitor demands that no statement served for A binds B's network id or UUIDv5(B, s) for any string s of B's data; statements on keto_relation_tuples must bind A's network id",
 		"expand trees are compared with children sorted (row order is not part of the observation)",
 		"between histories A's relationships are deleted by raw SQL; B's rows and all mappings are left alone",
+		"id-level family: the Manager / Traverser / engine interfaces take internal ids and nothing makes ids unique per network there, so A and B use the SAME ids (16-tuple universe, 38 Manager operations in A, BFS with A's row set as canonical state); B's vector = lists, exists, both traversals, engine checks and expand trees over the universe",
+		"UUID-shaped names: 5 spellings of one UUID (canonical, upper case, braces, urn:uuid:, no hyphens) x 5 x {object, subject id, subject-set object} x {A writes first, B writes first}; each network must list exactly the spelling it wrote",
 	)
 	v, _ := c06Vector(pool.get(0).ClientFor(c06B), &vecCalls)
 	run.Sample(map[string]any{"B_observation_vector": strings.Split(v, "\n")})
@@ -409,12 +426,19 @@ func c06Explore(t *testing.T, run *ev.Run, maxDepth int, final bool) {
 		"replay_divergences":            int(r.divergences.Load()),
 		"unstable_candidates":           int(r.unstable.Load()),
 		"candidate_signatures":          r.sigCount,
-		"exhaustive":                    res.exhaustive && c06Extra["zero_network_incomplete"] == 0,
+		"exhaustive":                    res.exhaustive && c06Extra["zero_network_incomplete"] == 0 && c06Extra["ids_incomplete"] == 0,
 		"workers":                       axWorkers(),
 		"zero_network_states":           c06Extra["zero_network_states"],
 		"zero_network_transitions":      c06Extra["zero_network_transitions"],
 		"concurrent_pairs":              c06Extra["concurrent_pairs"],
 		"concurrent_pause_points":       c06Extra["concurrent_pause_points"],
+		"ids_states":                    c06Extra["ids_states"],
+		"ids_transitions":               c06Extra["ids_transitions"],
+		"ids_depth_completed":           c06Extra["ids_depth_completed"],
+		"ids_alphabet":                  c06Extra["ids_alphabet"],
+		"ids_B_vector_evaluations":      c06Extra["ids_B_vector_evaluations"],
+		"ids_B_vector_calls":            c06Extra["ids_B_vector_calls"],
+		"uuid_spelling_cases":           c06Extra["uuid_spelling_cases"],
 	})
 }
 
